@@ -19,6 +19,7 @@ func init() {
 		Meta: core.Meta{
 			Level: "other",
 			Explanation: "Decides in bfe_fcgi: (bounds) every slice bound in writePairs that is computed by a subtraction from parameter lengths is protected by a dominating comparison that keeps it non-negative; (faithful pairs) the name and value handed to the stream are the map's key and value themselves (no slice of them), the two encodeSize prefixes are computed from len() of exactly the SSA values that are written after them, name length first, in the order prefix bytes, name, value, all to the writer created by newWriter for the params stream, and every success return passes w.Close() (stream terminator); (record size) maxWrite <= 65535, streamWriter.Write clamps each chunk to a value <= 65535 before calling writeRecord, every other writeRecord caller passes nil or an 8-byte block, header.init (the uint16 narrowing) is called only by writeRecord with len(content); writeRecord serialises header, the same content, pad[:h.PaddingLength] in this order under the client mutex and writes the buffer once; encodeSize uses the 1-byte form only under size <= 127 and the 4-byte form with bit 31 set otherwise; (reader) record.read stops at FCGI_END_REQUEST with io.EOF, rejects version != 1, sizes rbuf before slicing it, streamReader.Read clamps the copy to the buffered bytes, and the body bytes are selected by record type (FCGI_STDOUT vs FCGI_STDERR compared somewhere on the read path), and the reply ends only where the responder ends it (rule resp-end: every error streamReader.Read returns derives from the error of its record.read call; in record.read an end-of-stream marker such as io.EOF is returned only under rec.h.Type == FCGI_END_REQUEST, every other error is the result of an I/O call or a constructed error — an empty record of any type is not the end of the reply); (sequence) FCGIClient.Do writes BEGIN_REQUEST(role RESPONDER), the params stream (FCGI_PARAMS) and the stdin stream (FCGI_STDIN, copied from the request body and closed) in this order, returning early on the first two errors, and hands out a streamReader of the same client; response bodies are built on the buffered reader the header was parsed from; record type / role / status constants and the 8-byte header layout equal the specification. " +
+				"Robustness: the three writes of a pair may sit in a private helper that is handed the writer, the prefix bytes, the name and the value (parameters are followed to the arguments, order is decided at the helper's call site, the write errors must be returned through the helper); the encodeSize calls themselves must stay in writePairs. " +
 				"Not covered: that the upper bound of a truncating slice is within the string (relational), numeric correctness of padding and size encoding, bufio's chunking, what the responder sends, the HTTP semantics of the CGI response header.",
 			RuleText:    "obligations = per function with computed slice bounds the guard clause; the pair-writing clauses of writePairs; each writeRecord call site; the clamps; each ordering clause of writeRecord/Do; each reader clause; each return of streamReader.Read and record.read (provenance of the error that ends the reply); each specification constant",
 			Assumptions: []string{"binary.Write/Read serialise struct fields in declaration order, big endian", "bfe_bufio.Writer delivers bytes in order to the underlying streamWriter"},
@@ -43,6 +44,7 @@ func init() {
 			{Name: "stderr-record-ends-reply", File: "bfe_fcgi/fcgi_client.go", Old: "	if rec.h.Type == FCGIEndRequest {\n		err = io.EOF\n		return\n	}\n", New: "	if rec.h.Type == FCGIEndRequest || rec.h.Type == FCGIStderr {\n		err = io.EOF\n		return\n	}\n", Expect: "resp-end|record.read"},
 			{Name: "silent-read-error-returned-explicitly", File: "bfe_fcgi/fcgi_client.go", Old: "			w.buf, err = rec.read(w.c.rwc)\n			if err != nil {\n				return\n			}\n", New: "			var rerr error\n			w.buf, rerr = rec.read(w.c.rwc)\n			if rerr != nil {\n				return 0, rerr\n			}\n", Silent: true},
 			{Name: "silent-rename-and-reorder", File: "bfe_fcgi/fcgi_client.go", Old: "		n := len(p)\n		if n > maxWrite {\n			n = maxWrite\n		}\n		if err := w.c.writeRecord(w.recType, p[:n]); err != nil {\n			return nn, err\n		}\n		nn += n\n		p = p[n:]", New: "		chunk := len(p)\n		if maxWrite < chunk {\n			chunk = maxWrite\n		}\n		if err := w.c.writeRecord(w.recType, p[:chunk]); err != nil {\n			return nn, err\n		}\n		p = p[chunk:]\n		nn += chunk", Silent: true},
+			{Name: "silent-writepairs-helper", File: "bfe_fcgi/fcgi_client.go", Old: "		if _, err := w.Write(b[:n]); err != nil {\n			return err\n		}\n		if _, err := w.WriteString(k); err != nil {\n			return err\n		}\n		if _, err := w.WriteString(v); err != nil {\n			return err\n		}\n	}\n	w.Close()\n	return nil\n}\n", New: "		if err := emitPair(w, b[:n], k, v); err != nil {\n			return err\n		}\n	}\n	w.Close()\n	return nil\n}\n\nfunc emitPair(out *bufWriter, prefix []byte, key, val string) error {\n	if _, err := out.Write(prefix); err != nil {\n		return err\n	}\n	if _, err := out.WriteString(key); err != nil {\n		return err\n	}\n	if _, err := out.WriteString(val); err != nil {\n		return err\n	}\n	return nil\n}\n", Silent: true},
 		},
 	})
 }
@@ -50,6 +52,7 @@ func init() {
 const c55pkg = "bfe_fcgi"
 
 func runC55(c *core.Ctx) {
+	defer nxEnter(c)()
 	if c.P.Pkg(c55pkg) == nil {
 		c.Missing(c55pkg)
 		return
@@ -149,7 +152,7 @@ func c55sliceBounds(c *core.Ctx, fn *ssa.Function) {
 			}
 			n++
 			min := c55minuend(bound)
-			ok := core.HasGuard(sl.Block(), func(g core.Guard) bool {
+			ok := nxHolds(sl.Block(), func(g core.Guard) bool {
 				if lb, isLb := nxLower(g.Cond, g.Pol, func(x ssa.Value) bool { return nxSameVal(x, bound) }); isLb && lb >= 0 {
 					return true
 				}
@@ -186,7 +189,8 @@ func c55pairs(c *core.Ctx) {
 		return w != nil && nxFlows(call.Common().Args[0], func(v ssa.Value) bool { return v == ssa.Value(w) }, nil)
 	}
 	var strs, prefixes []*ssa.Call
-	for _, in := range allInstrs(fn) {
+	// the writes may sit in a private helper that is handed the writer and the pair
+	for _, in := range nxRegionInstrs(fn) {
 		call, ok := in.(*ssa.Call)
 		if !ok {
 			continue
@@ -209,14 +213,15 @@ func c55pairs(c *core.Ctx) {
 			fmt.Sprintf("expected one prefix Write, two encodeSize calls and two WriteString calls on the params writer; found %d, %d, %d", len(prefixes), len(sizes), len(strs)))
 		return
 	}
-	// order by dominance
-	if core.Dominates(strs[1], strs[0]) {
+	// order by dominance (an instruction of a helper stands at the helper's call site)
+	dom := func(a, b ssa.Instruction) bool { return nxDominatesIn(fn, a, b) }
+	if dom(strs[1], strs[0]) {
 		strs[0], strs[1] = strs[1], strs[0]
 	}
-	if core.Dominates(sizes[1], sizes[0]) {
+	if dom(sizes[1], sizes[0]) {
 		sizes[0], sizes[1] = sizes[1], sizes[0]
 	}
-	okOrder := core.Dominates(prefixes[0], strs[0]) && core.Dominates(strs[0], strs[1]) && core.Dominates(sizes[0], sizes[1]) && core.Dominates(sizes[1], prefixes[0])
+	okOrder := dom(prefixes[0], strs[0]) && dom(strs[0], strs[1]) && dom(sizes[0], sizes[1]) && dom(sizes[1], prefixes[0])
 	c.Check("prefix-agree", "writePairs:order", prefixes[0].Pos(), okOrder, "the pair must be emitted as: both length prefixes, then the name, then the value (FastCGI name-value pair format)")
 	// what is written: the range key / value themselves
 	var next *ssa.Next
@@ -228,7 +233,7 @@ func c55pairs(c *core.Ctx) {
 		}
 	}
 	for i, part := range []string{"name", "value"} {
-		written := strs[i].Call.Args[1]
+		written := nxArgOf(strs[i].Call.Args[1])
 		intact := next != nil
 		what := ""
 		for _, l := range nxPhiLeaves(written) {
@@ -248,7 +253,7 @@ func c55pairs(c *core.Ctx) {
 	// prefix bytes: sizes[0] at b[0:], sizes[1] at b[n0:], Write(b[:n0+n1])
 	okBuf := false
 	if sl, ok := sizes[1].Call.Args[0].(*ssa.Slice); ok && sl.Low == ssa.Value(sizes[0]) && sl.High == nil {
-		if pw, ok := prefixes[0].Call.Args[1].(*ssa.Slice); ok && pw.Low == nil {
+		if pw, ok := nxArgOf(prefixes[0].Call.Args[1]).(*ssa.Slice); ok && pw.Low == nil {
 			if add, ok := pw.High.(*ssa.BinOp); ok && add.Op == token.ADD {
 				both := (add.X == ssa.Value(sizes[0]) && add.Y == ssa.Value(sizes[1])) || (add.X == ssa.Value(sizes[1]) && add.Y == ssa.Value(sizes[0]))
 				okBuf = both && core.Render(pw.X) == core.Render(sl.X) && core.Render(pw.X) == core.Render(sizes[0].Call.Args[0])
@@ -266,11 +271,7 @@ func c55pairs(c *core.Ctx) {
 		}
 		ok := false
 		if errv != nil {
-			for _, r := range core.Returns(fn) {
-				if core.RetVals(r)[0] == errv {
-					ok = true
-				}
-			}
+			ok = nxReturnedBy(fn, call.Parent(), errv, 3)
 		}
 		c.Check("prefix-agree", fmt.Sprintf("writePairs:write-error#%d", i), call.Pos(), ok, "the error of a params-stream write is not returned")
 	}
@@ -493,7 +494,7 @@ func c55records(c *core.Ctx) {
 			if b, isB := cv.Type().Underlying().(*types.Basic); !isB || b.Kind() != types.Uint8 {
 				continue
 			}
-			ok := core.HasGuard(cv.Block(), func(g core.Guard) bool {
+			ok := nxHolds(cv.Block(), func(g core.Guard) bool {
 				ub, isUb := nxUpper(g.Cond, g.Pol, func(x ssa.Value) bool { return x == cv.X })
 				return isUb && ub <= 127
 			})
